@@ -405,6 +405,87 @@ def translate_make_mapping_each_set(src):
         "  else none\n")
 
 
+def void_function_body(src, name):
+    m = re.search(r"(?:inline\s+)?void\s+" + name + r"\s*\(([^)]*)\)\s*\{", src)
+    if not m:
+        raise SyntaxError(f"function {name} not found")
+    depth, i = 1, m.end()
+    while depth:
+        if src[i] == "{":
+            depth += 1
+        elif src[i] == "}":
+            depth -= 1
+        i += 1
+    return src[m.end():i - 1]
+
+
+def translate_z_matrix(src, binom_h):
+    """`calculate_Z_matrix` (fci_graph.c) and the literal table of `initialize_binom` (binom.h).  Reviewed shape: two
+    nested counting loops defining k and ll, an int64 accumulator over a third loop whose body adds a difference of two
+    table reads, a store; then a block with k = nele and one loop of stores.  Every bound, index and value expression is
+    emitted over `Int` (C `int` arithmetic; all values stay below 65 * 65)."""
+    def need(cond, what):
+        if not cond:
+            raise SyntaxError(f"calculate_Z_matrix: reviewed shape not found: {what}")
+    body = void_function_body(src, "calculate_Z_matrix")
+    m = re.search(r"#define\s+NB_\s+(\d+)", body)
+    need(m is not None, "#define NB_ <n>")
+    nb = int(m.group(1))
+    ident = r"[A-Za-z_0-9 +\-*()]+?"
+    pat = (r"for\s*\(int km = 0; km < (?P<kmb>" + ident + r"); \+\+km\)\s*\{\s*"
+           r"for\s*\(int llm = 0; llm < (?P<llmb>" + ident + r"); \+\+llm\)\s*\{\s*"
+           r"const int k = (?P<k>" + ident + r");\s*const int ll = (?P<ll>" + ident + r");\s*int64_t tmp = 0;\s*"
+           r"for\s*\(int m = (?P<mlo>" + ident + r"); m < (?P<mhi>" + ident + r"); \+\+m\)\s*\{\s*"
+           r"tmp \+= binom\[(?P<ip>" + ident + r")\] - binom\[(?P<im>" + ident + r")\];\s*\}\s*"
+           r"out\[(?P<o1>" + ident + r")\] = \(int32_t\)tmp;\s*\}\s*\}\s*"
+           r"\{\s*int k = (?P<k2>" + ident + r");\s*for\s*\(int ll = (?P<l2lo>" + ident + r"); ll < (?P<l2hi>" + ident + r"); \+\+ll\)\s*\{\s*"
+           r"out\[(?P<o2>" + ident + r")\] = (?P<v2>" + ident + r");\s*\}\s*\}")
+    g = re.search(pat, body)
+    need(g is not None, "the two loop nests of calculate_Z_matrix")
+    need(re.search(r"uint64_t\s*\*\s*binom = safe_malloc\(binom, NB_ \* NB_\);\s*initialize_binom\(binom\);", body) is not None,
+         "binom = safe_malloc(NB_ * NB_); initialize_binom(binom)")
+
+    def lean(e):
+        e = e.strip().replace("NB_", str(nb))
+        need(re.fullmatch(r"[A-Za-z_0-9 +\-*()]+", e) is not None, f"plain integer expression, got {e!r}")
+        return re.sub(r"(?<![A-Za-z_0-9])(\d+)(?![A-Za-z_0-9])", r"(\1 : Int)", e)
+    d = {k_: lean(v) for k_, v in g.groupdict().items()}
+    entries = re.findall(r"binom\[\s*(\d+)\*(\d+)\+\s*(\d+)\]\s*=\s*(\d+)ull;", binom_h)
+    need(len(entries) > 0 and all(int(e[1]) == nb for e in entries), "binom[n*NB_+k] = <v>ull; assignments with the stride of NB_")
+    stray = re.sub(r"binom\[\s*\d+\*\d+\+\s*\d+\]\s*=\s*\d+ull;", "", void_function_body(binom_h, "initialize_binom"))
+    need(stray.strip() == "", f"initialize_binom contains something else than literal assignments: {stray.strip()[:60]!r}")
+    rows = {}
+    for n, st, k, v in entries:
+        need(int(k) < nb, "column index below the stride")
+        rows.setdefault(int(n), {})[int(k)] = int(v)
+    need(sorted(rows) == list(range(len(rows))), "rows 0 .. n assigned without a gap")
+    for n in rows:
+        need(sorted(rows[n]) == list(range(len(rows[n]))), f"row {n}: columns 0 .. k assigned without a gap")
+    need(len(entries) == sum(len(r) for r in rows.values()), "no entry assigned twice")
+    table_defs = "".join(f"def binomRow{n} : List Nat := [{', '.join(str(rows[n][k]) for k in range(len(rows[n])))}]\n" for n in sorted(rows))
+    table = ", ".join(f"binomRow{n}" for n in sorted(rows))
+    return ("/-- `calculate_Z_matrix` (fci_graph.c): bounds, indices and values of its loops, as read from the source -/\n"
+            f"def cz_stride : Int := ({nb} : Int)\n"
+            f"def cz_km_bound (norb nele : Int) : Int := {d['kmb']}\n"
+            f"def cz_llm_bound (norb nele : Int) : Int := {d['llmb']}\n"
+            f"def cz_k (km : Int) : Int := {d['k']}\n"
+            f"def cz_ll (llm k : Int) : Int := {d['ll']}\n"
+            f"def cz_m_lo (norb nele k ll : Int) : Int := {d['mlo']}\n"
+            f"def cz_m_hi (norb nele k ll : Int) : Int := {d['mhi']}\n"
+            f"def cz_idx_plus (nele k m : Int) : Int := {d['ip']}\n"
+            f"def cz_idx_minus (nele k m : Int) : Int := {d['im']}\n"
+            f"def cz_out1 (norb k ll : Int) : Int := {d['o1']}\n"
+            f"def cz2_k (norb nele : Int) : Int := {d['k2']}\n"
+            f"def cz2_lo (norb nele : Int) : Int := {d['l2lo']}\n"
+            f"def cz2_hi (norb nele : Int) : Int := {d['l2hi']}\n"
+            f"def cz2_out (norb k ll : Int) : Int := {d['o2']}\n"
+            f"def cz2_val (nele ll : Int) : Int := {d['v2']}\n"
+            "/-- the literal assignments `binom[n*stride + k] = v` of `initialize_binom` (binom.h): row n lists the values\n"
+            "    assigned at columns 0, 1, ... of that row (the translator refuses gaps and double assignments) -/\n"
+            + table_defs +
+            f"def binomRows : List (List Nat) := [{table}]\n")
+
+
 def main():
     h = open(os.path.join(REPO, "src/fqe/lib/bitstring.h")).read()
     c = open(os.path.join(REPO, "src/fqe/lib/bitstring.c")).read()
@@ -426,6 +507,8 @@ def main():
     parts.append(translate_build_mapping(open(os.path.join(REPO, "src/fqe/lib/fci_graph.c")).read()))
     parts.append(translate_make_mapping_each(open(os.path.join(REPO, "src/fqe/lib/fci_graph.c")).read()))
     parts.append(translate_make_mapping_each_set(open(os.path.join(REPO, "src/fqe/lib/fci_graph.c")).read()))
+    parts.append(translate_z_matrix(open(os.path.join(REPO, "src/fqe/lib/fci_graph.c")).read(),
+                                    open(os.path.join(REPO, "src/fqe/lib/binom.h")).read()))
     parts.append("end GenC\n")
     text = "\n".join(parts)
     old = open(OUT).read() if os.path.exists(OUT) else None
